@@ -101,6 +101,10 @@ def eval_hy(case):
     from bluebonnet.fluids import gas  # noqa: PLC0415
 
     tr, pr = case["tr"], case["pr"]
+    if case.get("f32"):
+        # the reduced state arrives as single-precision scalars (read off a float32 table): the iteration then runs in
+        # float32 - it must still terminate (a stopping test below single-precision resolution never does)
+        tr, pr = np.float32(tr), np.float32(pr)
     try:
         with alarm(2.0):
             z = float(gas.z_factor_hallyarbrough(pr, tr))
@@ -110,6 +114,7 @@ def eval_hy(case):
     except Exception as e:  # noqa: BLE001
         return {"violations": [V("hy/terminates", f"Hall-Yarbrough raises {type(e).__name__} at {tr=}, {pr=}",
                                  case=case)], "outcome": "hy-raise"}
+    tr, pr = float(tr), float(pr)  # (the single-precision values, as doubles, for the comparison with DAK)
     if not np.isfinite(z):
         return {"violations": [V("hy/finite", f"Hall-Yarbrough returns {z!r} at {tr=}, {pr=}", case=case,
                                  observed=z)], "outcome": "hy-nan"}
@@ -241,6 +246,8 @@ def cases(tier, seed):
     t_k = 1.2 + 1.8 * ((k * 0.6180339887498949) % 1.0)
     p_k = 24.0 * ((k * 0.41421356237309503) % 1.0) ** 1.5 + 1e-3
     out += [{"kind": "hy", "tr": float(round(t, 7)), "pr": float(round(p, 7))} for t, p in zip(t_k, p_k)]
+    out += [{"kind": "hy", "tr": float(t), "pr": float(p), "f32": True}
+            for t, p in itertools.product((1.2, 1.35, 1.5, 2.0, 2.4, 3.0), (1e-3, 0.05, 0.5, 1.0, 2.0, 4.0, 8.0, 12.0, 16.0, 20.0, 24.0))]
     return out
 
 
